@@ -8,7 +8,9 @@ NAMES = ["alpha", "alphab", "beta", "betax", "core", "corex", "gam", "gamma", "u
          "zed", "kay", "omega", "pix"]
 ROOTS = ["proj", "app", "srcx"]
 EXTERNALS = ["os", "os.path", "sys", "json", "collections.abc", "numpy", "numpy.linalg",
-             "typing", "urllib.parse", "logging.handlers"]
+             "typing", "urllib.parse", "logging.handlers",
+             # names that merely start with another external's name
+             "typing_extensions", "jsonschema", "numpy_financial", "osx.path", "systemd"]
 
 
 def pick(rng, seq):
@@ -125,7 +127,7 @@ def _gen_imports(rng, tree):
     file_mods = [tree.dotted(f) for f in tree.pyfiles
                  if "__pycache__" not in f and not f.endswith("__init__.py")]
     density = rng.choice([0.5, 1.0, 1.5, 2.5])
-    ext_rate = rng.choice([0.0, 0.1, 0.3])
+    ext_rate = rng.choice([0.0, 0.15, 0.3, 0.4])
     for f in tree.pyfiles:
         if "__pycache__" in f:
             continue
@@ -250,10 +252,10 @@ def gen_cfg(rng, tree, plain=False):
         if r < 0.3:
             kw["exclude_external_libraries"] = False
             r2 = rng.random()
-            if r2 < 0.25:
-                kw["external_exclusions"] = sorted(rng.sample(["os*", "numpy", "*parse", "typing"], 2))
-            elif r2 < 0.5:
-                kw["regex_external_exclusions"] = sorted(rng.sample(["os.*", "numpy$", ".*abc"], 2))
+            if r2 < 0.3:
+                kw["external_exclusions"] = sorted(rng.sample(["os*", "numpy", "*parse", "typing", "json", "os", "sys"], rng.randint(2, 3)))
+            elif r2 < 0.6:
+                kw["regex_external_exclusions"] = sorted(rng.sample(["os.*", "numpy$", ".*abc", "typing$", "json$", "os$"], rng.randint(2, 3)))
     cfg = {"tree": tree.name, "root": tree.root, "module": module,
            "via": "modobj" if (rng.random() < 0.15 and not plain) else "path", "kw": kw}
     return cfg, predict_modules(tree, cfg, patterns)
